@@ -190,10 +190,10 @@ theorem tls_peer_failure_reported {σ ω : Type} {W : World ω} (C : Cfg) (E : E
   | abort m => exact absurd rfl (hs.2.1 m)
   | ok p =>
     obtain ⟨ans, out⟩ := p
-    rcases hs.2.2.1 ans out rfl with ha | ha | ha <;> subst ha
-    · exact ⟨.closed, _, rfl⟩
-    · exact ⟨.system 0, _, rfl⟩
-    · exact ⟨.sslError, _, rfl⟩
+    have hf : FatalAns ans := hs.2.2.1 ans out rfl
+    obtain ⟨e, s', hr⟩ := handleResult_fatal (W := W) (noteCall E s1 true [] ans) ans hf
+    refine ⟨e, s', ?_⟩
+    rcases hf with ha | ha | ha <;> subst ha <;> simp [hr]
 
 /-! ### asynchronous sockets: "by the disconnect handler and failed or broken futures" -/
 
